@@ -247,8 +247,28 @@ _EXTRA7 = {
     'C19': 'the old-word next pair is skipped only when a full occurrence of the merged pair follows',
     'C20': 'no line is dropped or limited inside the per-file closure before take(max_sequences); the word-part pattern is anchored with \\b on both sides',
 }
+_EXTRA8 = {
+    'C02': 'the word pattern is written with \\s / \\S only',
+    'C03': 'the word pattern is written with \\s / \\S only; a sort-then-take cut of the merge table orders by id',
+    'C04': 'get_vocab of the byte tokenizer lists every special token',
+    'C06': 'a spliced batch range is a candidate of the search or provably non-empty',
+    'C07': 'the line reader ends a source at end of file only; no nth override that skips a source by its recorded length',
+    'C08': 'the line reader ends a source at end of file only; min_items = min(len, limit) -sat skip',
+    'C09': 'a worker pulls one item per lock (no bulk pull)',
+    'C10': 'Python encoding of Operation agrees between writer and reader; operations() only appends; byte lengths of the arguments only size buffers',
+    'C11': 'clean() and word_boundaries() visit every character and only append; the trailing word is reported unconditionally',
+    'C12': 'Python encoding of EditOperation agrees between writer and reader; no narrowing cast in the edit-distance functions',
+    'C13': 'all three lists of _correction_f1 have the same length before they are indexed; text::clean (R-C11-1/2 re-evaluated)',
+    'C14': 'the task input is tokenized with ignore_special_tokens = true',
+    'C16': 'PyWindow copies the window field by field; the window loops return Ok only through their head test',
+    'C17': 'matrices have shape (items, max length) / (3, stride); lengths travel with the matrix of the same pad_ids call; Python encodings of GroupAggregation / ByteGroups agree; accumulate_with is the prefix-sum recurrence',
+    'C19': 'segmentation flags of train_bpe agree; the reducer receives blocking only; the word pattern is written with \\s / \\S only',
+    'C20': 'save() truncates its file; character n-grams are windows over all characters of the word; the reducer receives blocking only; each normal form is computed by its namesake',
+}
+for _k, _v in _EXTRA8.items():
+    _EXTRA7[_k] = (_EXTRA7[_k] + '; ' + _v) if _k in _EXTRA7 else _v
 for _k in ['C%02d' % _i for _i in range(1, 21)]:
-    _hs = 'no thread_local / interior-mutable static in the files of the property (results are functions of the arguments)'
+    _hs = 'no truncating exit from an iterator loop (two reviewed exceptions); no thread_local / interior-mutable static in the files of the property (results are functions of the arguments)'
     _EXTRA7[_k] = (_EXTRA7[_k] + '; ' + _hs) if _k in _EXTRA7 else _hs
 for _k, _v in _EXTRA7.items():
     _EXTRA6[_k] = (_EXTRA6[_k] + '; ' + _v) if _k in _EXTRA6 else _v
